@@ -538,7 +538,7 @@ pub fn run(tier: &Tier) -> i32 {
     let alpha = alphabet(tier.thorough);
     let mb = macro_bodies();
     let k = if tier.thorough { 6 } else { 5 };
-    let kcli = if tier.thorough { 4 } else { 3 };
+    let kcli = 4;
     let st = Stats::default();
     let wellformed = AtomicU64::new(0);
     // enumerate prefix-wise in parallel to bound memory: first two positions fan out
